@@ -162,7 +162,8 @@ CHECKS = {
         "ORM backends (Props/C12Orm.lean): `dj_never_leaks_welltyped`, `sa_never_leaks_welltyped` - for EVERY tree in the parser's image (printable) that is well-typed in Spec/TypesStrict under any "
         "field typing (every built-in, every overload, every literal kind, null wherever a primitive is expected) the models of the Django visitor and of the SQLAlchemy ORM / Core visitors return a "
         "translation, a library exception or the documented NotImplementedError, never a Python-level error ('unmodelled': geography literals and geo functions, covered by execution). "
-        "Props/C12Complete.lean: `dj_columns`, `sa_columns` - the columns of a successful ORM translation are exactly the filter's field references in document order (with C08's dj_params / "
+        "Props/C12Accepted.lean: `dj_never_leaks_accepted`, `sa_never_leaks_accepted` - the same for every accepted, well-typed ASCII filter TEXT (printable from C10.parse_image; every duration / GUID / "
+        "integer token the lexer emits has a Python value: accepted_pyLitOk'). Props/C12Complete.lean: `dj_columns`, `sa_columns` - the columns of a successful ORM translation are exactly the filter's field references in document order (with C08's dj_params / "
         "sa_params: every field and literal is represented, for every tree). The three visitor models are compared with the real visitors on the whole node-kind x position matrix.",
    note="Trusted: Lean kernel, standard axioms, Spec/TypesStrict.lean, harness. Partial: beyond the visitor models (Model/Orm.lean, tied by the outcome correspondences of C02 / C03 / C12) Django's and "
         "SQLAlchemy's internals are not modelled; a refusal raised by the host ORM itself (Django FieldError) is counted as a refusal. Nine leaks were repaired first "
